@@ -25,8 +25,18 @@ class docstring example (no flat counterpart: clauses 2-4 only), the two `!`-fre
 references the test computes but never asserts (its first string has a typo `[#A2c)`, written `[#A2c]` here; flat
 strings derived by replacing the first level by hand), regular polymers with repeated intermediate fragment names.
 
+Two further families, each built from one description as well (gen/gr_resolver_inputs):
+  * layered_reuse_cases: the groups of an intermediate level are called like their first member, so one fragment NAME is
+    defined on two or three levels (a bead that keeps its name while it is refined; a bead handed through a level
+    unchanged, `#W=[<][#W]`); typed-in strings of the same kind.  Each level's fragment block is a table of its own
+    (the string writes one `{...}` per level).
+  * layered_shared_cases: `!` on two consecutive levels - a chain of 3..5 beads whose neighbours share an end atom or are
+    bonded, covered by segments that share their boundary bead or are disjoint; the flat string is the bead chain with
+    the same bottom fragments (every `!` / `<>` pair has a label of its own, no aromatic atoms).  Clause (3) is reduced
+    to the membership clause for these (copies and bonds of `!` inputs: C02's shared family, C10).
+
 Scope decisions: legacy=True only (with labels ignored the grouped and the flat string may legitimately pair
-different atoms); no `!`; no virtual nodes inside groups; crossing edges have order >= 1 (an order-0 descriptor is
+different atoms); `!` only in the family above; no virtual nodes inside groups; crossing edges have order >= 1 (an order-0 descriptor is
 F3 / C13 territory); at most 3 crossing edges between two groups.
 """
 import logging
@@ -44,14 +54,17 @@ BOUNDS = {
     'quick': {'flat_base_graphs': 'all connected graphs with 2..4 nodes, all single + first two edges in turn order 2', 'repeats_per_cell': 2,
               'intermediate_levels': '1..2 (exhaustive part), 1..3 (random part)', 'group_size': '<= 3 (first level), <= 2 (above)',
               'last_level': ['all-atom', 'coarse'], 'typed_in': 7, 'regular_polymers': '3 fragment sets x (2x2, 3x2, 2x3) (+ second grouping)',
-              'random': '60 trees with 4..9 nodes'},
+              'random': '60 trees with 4..9 nodes',
+              'reused_names': '5 typed-in + graphs 2..4 nodes x 2 groupings x all-atom/coarse',
+              'shared_on_two_levels': 'bead chains 3..5 x groupings with a shared bead x bottom links with a shared atom x 3 bead-size variants (thinned for 4, 5 beads)'},
     'thorough': {'flat_base_graphs': 'all connected graphs with 2..5 nodes, same order variants', 'repeats_per_cell': 4,
                  'intermediate_levels': '1..3', 'group_size': '<= 3 / <= 2', 'last_level': ['all-atom', 'coarse'], 'typed_in': 7,
-                 'regular_polymers': '3 fragment sets x 6 shapes', 'random': '3000 trees with 4..9 nodes'},
+                 'regular_polymers': '3 fragment sets x 6 shapes', 'random': '3000 trees with 4..9 nodes',
+                 'reused_names': '5 typed-in + graphs 2..5 nodes x 4 groupings', 'shared_on_two_levels': 'bead chains 3..5, every grouping x every link assignment (5 beads: one size variant)'},
 }
 EXHAUSTIVE = {'quick': False, 'thorough': False}
 RULE = ('flat two-level description (atlas graph x order variant x unique-label bottom fragments, all-atom or coarse) x seeded '
-        'connected partition into groups (per level); exhaustive part seeded by the cell; a case is non-trivial when it has >= 2 '
+        'connected partition into groups (per level), also with group names = member names; bead chains with `!` on two levels; exhaustive part seeded by the cell; a case is non-trivial when it has >= 2 '
         'fragment levels and at least one intermediate fragment with >= 2 nodes or >= 2 crossing edges; distinct = distinct layered string')
 ASSUMPTIONS = ['cgsmiles.read_fragments / read_cgsmiles read fragment and base text as intended (C13, C04/C05; base strings are cross-checked per case)',
                'the flat two-level resolution is the reference molecule (its own correctness is C01/C02/C03)',
